@@ -196,7 +196,11 @@ pub fn cmd_grace(a: &[&str]) -> String {
 
 struct MockOps {
     tracking: Option<Tracking>,
+    /// answer of is_within_grace_period() once chronyd has been queried in this iteration
     grace: bool,
+    /// its answer before the query (the grace period may run out while the query is pending)
+    grace_before: bool,
+    queried: std::cell::Cell<bool>,
     reads_before_query: Rc<RefCell<Vec<usize>>>,
 }
 
@@ -204,10 +208,15 @@ impl vp::ChronyOps for MockOps {
     fn get_tracking(&mut self) -> Option<Tracking> {
         let n = VCLOCK.with(|v| v.borrow().reads.len());
         self.reads_before_query.borrow_mut().push(n);
+        self.queried.set(true);
         self.tracking.clone()
     }
     fn is_within_grace_period(&self) -> bool {
-        self.grace
+        if self.queried.get() {
+            self.grace
+        } else {
+            self.grace_before
+        }
     }
 }
 
@@ -221,7 +230,9 @@ pub fn cmd_poller(a: &[&str]) -> String {
         return "usage".into();
     }
     let some = a[0] == "1";
-    let grace = a[1] == "1";
+    // grace: 0 | 1 (same answer whenever asked) | 10 = inside before the query, outside once it has returned | 01 = the reverse
+    let grace = a[1] == "1" || a[1] == "01";
+    let grace_before = a[1] == "1" || a[1] == "10";
     let cfg = a[2] == "1";
     let cfg_refid: u32 = a[3].parse().unwrap_or(0);
     let t_refid: u32 = a[4].parse().unwrap_or(0);
@@ -237,7 +248,7 @@ pub fn cmd_poller(a: &[&str]) -> String {
     let ctx = Context { mbox: my, dbox, channel_id: ChannelId::ClockErrorBoundPoller };
     let reads = Rc::new(RefCell::new(Vec::new()));
     let t = if some { Some(tracking(0.0, 0.0, 0.0, 1.0, 0, ref_time_for_age(1000), t_refid)) } else { None };
-    let ops = MockOps { tracking: t, grace, reads_before_query: reads.clone() };
+    let ops = MockOps { tracking: t, grace, grace_before, queried: std::cell::Cell::new(false), reads_before_query: reads.clone() };
     set_clock(BASE_SECS as i128 * 1_000_000_000, 123_000_000_456);
     set_advance(1_000_000_000);
     let res = std::panic::catch_unwind(std::panic::AssertUnwindSafe(|| vp::run_poller(ctx, ops, phc_info, Duration::from_millis(1))));
